@@ -150,7 +150,22 @@ pub fn any_word(rng: &mut Rng, lang: &str) -> String {
             let two = [*rng.pick(&alpha), *rng.pick(&alpha)];
             rand_word(rng, &two, 1, 9)
         }
-        17 => rand_word(rng, &alpha, 18, 70),
+        17 => match rng.below(12) {
+            0 => rand_word(rng, &alpha, 71, 300),
+            1 | 2 => {
+                // a long run of one or two symbols followed by a burst of different ones ("000000000012")
+                let a = if rng.chance(1, 2) { *rng.pick(&alpha) } else { *rng.pick(&['0', '1', '7']) };
+                let b = if rng.chance(1, 3) { *rng.pick(&alpha) } else { a };
+                let n = rng.range(6, 30);
+                let mut w: String = (0..n).map(|k| if k % 2 == 0 { a } else { b }).collect();
+                w.push_str(&rand_word(rng, &alpha, 1, 6));
+                if rng.chance(1, 2) {
+                    w.push_str(&rng.range(0, 999).to_string());
+                }
+                w
+            }
+            _ => rand_word(rng, &alpha, 18, 70),
+        },
         18 => {
             let digits: Vec<char> = "0123456789".chars().collect();
             let mut w = rand_word(rng, &digits, 1, 4);
@@ -379,11 +394,13 @@ pub fn rand_limit(rng: &mut Rng) -> usize {
 /// Record ids are arbitrary `usize` values: mostly small, sometimes 0, beyond 2^32 or near usize::MAX.
 /// `i` keeps ids of one store distinct.
 pub fn odd_id(rng: &mut Rng, i: usize) -> usize {
-    match rng.below(8) {
+    match rng.below(10) {
         0 => (1usize << 32) + i * 3,
         1 => usize::MAX - i,
         2 => (1usize << 31) - 1 - i,
         3 => i * 65536,
+        4 => (1usize << 63).wrapping_add(i), // isize::MIN as a bit pattern for the first record
+        5 => (1usize << 63) - 1 - i,
         _ => 100 + i * 3,
     }
 }
